@@ -23,6 +23,11 @@ enum Kind {
     /// [0, per_writer) of each), untouched and 1-point tampered: what an older / newer program left
     /// behind, read by this version
     CrossVersion { writers: Vec<String>, per_writer: usize },
+    /// encodings written by *future* versions of this declaration that the history grammar does not
+    /// contain: any one field removed (not only a trailing one - an older reader copes with that,
+    /// because it skips the removed field by name), alone and combined with another field made
+    /// optional, in both step orders; values [0, per_writer) of each, untouched and 1-point tampered
+    FutureWriters { per_writer: usize },
     /// one explicit input (replay)
     One(Vec<u8>),
 }
@@ -199,6 +204,23 @@ fn run_item(prop: &str, it: &Item, st: &mut Stats, thorough: bool) {
                 }
             }
         }
+        Kind::FutureWriters { per_writer } => {
+            let p = common::params_for(thorough);
+            let Ty::Record(rd) = &e.ty else { return };
+            for w in future_writers(rd) {
+                let wty = Ty::Record(std::sync::Arc::new(w));
+                for v in values(&wty, &p).iter().take(*per_writer) {
+                    let Ok(mb) = ref_encode(&wty, v) else { continue };
+                    let b = &mb.b;
+                    if b.len() > 96 {
+                        continue;
+                    }
+                    st.add("future_version_encodings_read", 1);
+                    run_input(prop, e, b, "future-version", st);
+                    tamper::one_point(b, &ALPHABET, &mut |s| run_input(prop, e, s, "future-version 1-point", st));
+                }
+            }
+        }
         Kind::ZeroWidth { from, to } => {
             let p = common::params_for(thorough);
             // the costly counts only on the first values (the loop depends on the count alone)
@@ -243,6 +265,41 @@ fn run_item(prop: &str, it: &Item, st: &mut Stats, thorough: bool) {
             }
         }
     }
+}
+
+/// declarations a later version of the program could have: one serialized field removed (at any
+/// position), alone or together with another field made optional (both step orders)
+fn future_writers(rd: &RecordDescr) -> Vec<RecordDescr> {
+    let live: Vec<usize> = (0..rd.fields.len()).filter(|i| rd.fields[*i].transient.is_none()).collect();
+    let mut out = Vec::new();
+    for &i in &live {
+        let gone = rd.fields[i].name.clone();
+        let mut w1 = rd.clone();
+        w1.fields.remove(i);
+        w1.steps.push(Step::Removed(gone.clone()));
+        out.push(w1.clone());
+        for g in w1.fields.iter().enumerate().filter(|(_, g)| g.transient.is_none() && !g.is_option && !matches!(g.ty, Ty::Opt(_))).map(|(k, _)| k).collect::<Vec<_>>() {
+            for removed_first in [true, false] {
+                let mut w = rd.clone();
+                w.fields.remove(i);
+                let name = w.fields[g].name.clone();
+                w.fields[g].ty = Ty::Opt(Box::new(w.fields[g].ty.clone()));
+                w.fields[g].is_option = true;
+                if let Some(d) = w.fields[g].default.take() {
+                    w.fields[g].default = Some(Val::Opt(Some(Box::new(d))));
+                }
+                if removed_first {
+                    w.steps.push(Step::Removed(gone.clone()));
+                    w.steps.push(Step::MadeOptional(name));
+                } else {
+                    w.steps.push(Step::MadeOptional(name));
+                    w.steps.push(Step::Removed(gone.clone()));
+                }
+                out.push(w);
+            }
+        }
+    }
+    out
 }
 
 /// the largest witness: five input bytes, 2^31-1 loop iterations (run single-threaded)
@@ -333,6 +390,7 @@ fn build_items<'a>(u: &'a U, run: &Run) -> Vec<Item<'a>> {
                     }
                 }
             }
+            items.push(Item { e, kind: Kind::FutureWriters { per_writer: if thorough { 24 } else { 8 } } });
             // one work item per few writers
             for c in writers.chunks(4) {
                 items.push(Item { e, kind: Kind::CrossVersion { writers: c.to_vec(), per_writer: if thorough { 48 } else { 12 } } });
@@ -350,7 +408,7 @@ fn build_items<'a>(u: &'a U, run: &Run) -> Vec<Item<'a>> {
     // `--only part:other-version`: just the inputs written by other versions and the nested-evolved
     // declarations (a sub-run of the same sweep, for a quick look at those parts at thorough scale)
     if run.only.as_deref() == Some("part:other-version") {
-        items.retain(|it| matches!(it.kind, Kind::CrossVersion { .. }) || it.e.tags.contains(&"evolved_nested"));
+        items.retain(|it| matches!(it.kind, Kind::CrossVersion { .. } | Kind::FutureWriters { .. }) || it.e.tags.contains(&"evolved_nested"));
     }
     items
 }
@@ -542,7 +600,7 @@ pub fn run(prop: &str, tier: &str, only: Option<String>) -> i32 {
     }
     let thorough = run.thorough();
     run.rule = format!(
-        "every table row of the universe x (all byte strings over the 12-byte format alphabet up to length {} ({} for the deep target set), all byte strings over all 256 values up to length {} ({} deep), every 1-point tampering (alphabet bytes: replace, delete, duplicate, insert, truncate; all 256 byte values at every position for the deep set / in the thorough tier) / framing-aware rewrite / splice of every valid encoding{}; for every history declaration also the encodings written by every other version of its histories, untouched and 1-point tampered), in both build profiles; containers of zero-width elements get the dedicated count enumeration of DESIGN 6 C05. {}",
+        "every table row of the universe x (all byte strings over the 12-byte format alphabet up to length {} ({} for the deep target set), all byte strings over all 256 values up to length {} ({} deep), every 1-point tampering (alphabet bytes: replace, delete, duplicate, insert, truncate; all 256 byte values at every position for the deep set / in the thorough tier) / framing-aware rewrite / splice of every valid encoding{}; for every history declaration also the encodings written by every other version of its histories and by future versions outside the history grammar (any one field removed, alone or with another field made optional), untouched and 1-point tampered), in both build profiles; containers of zero-width elements get the dedicated count enumeration of DESIGN 6 C05. {}",
         if thorough { 5 } else { 4 },
         if thorough { 7 } else { 5 },
         2,
